@@ -46,6 +46,20 @@ ALT = {
     "alt/s3": SCHEMAS["s3"],
     "alt/shared": LIB.replace("int7 y = 2", "int9 y = 2\n    bool z = 3"),
 }
+# s9: FOUR imports, several nested definitions, constants and enums - any unordered collection (set / dict keyed by hash)
+# that reaches the output shows up across hash seeds only when it holds several elements
+MANY = {
+    "units": "proto units\n\nconst UNIT_SCALE = 10\n\ntype Meter = int24\n",
+    "status": "proto status\n\nenum State : uint3 {\n    STATE_IDLE = 0\n    STATE_BUSY = 1\n    STATE_DOWN = 5\n}\n",
+    "geometry": "proto geometry\n\nmessage Vec {\n    int12 dx = 1\n    int12 dy = 2\n}\n",
+    "s9": "proto station\n\nimport \"units.bitproto\"\nimport \"status.bitproto\"\nimport \"geometry.bitproto\"\nimport \"shared.bitproto\"\n\n"
+          "const SLOTS = 3\nconst LABEL = \"st\"\nconst ENABLED = true\n\nenum Kind : uint2 {\n    KIND_A = 0\n    KIND_B = 1\n    KIND_C = 2\n}\n\n"
+          "type Ids = uint9[SLOTS]\n\nmessage Station {\n    enum Level : uint2 {\n        LEVEL_LOW = 0\n        LEVEL_HIGH = 1\n    }\n"
+          "    message Dock {\n        bool busy = 1\n        units.Meter len = 2\n    }\n    message Mast {\n        uint5 h = 1\n    }\n"
+          "    message Tank {\n        uint7 fill = 1\n    }\n    Kind kind = 1\n    Level level = 2\n    Dock[SLOTS] docks = 3\n    Mast mast = 4\n"
+          "    Tank tank = 5\n    status.State state = 6\n    geometry.Vec pos = 7\n    shared.Point origin = 8\n    shared.Mode mode = 9\n    Ids ids = 10\n}\n",
+}
+MATRIX_EXTRA = [("compile", "s9", "c", False), ("compile", "s9", "py", False), ("compile", "s9", "go", False), ("compile", "s9", "c", True)]
 BROKEN = "proto broken\n// comment before the failing statement\nmessage B {\n    message Deep {\n        uint0 x = 1\n    }\n}\n"
 
 EVENTS = [
@@ -65,6 +79,9 @@ def write_schemas(d):
         f.write(LIB)
     with open(os.path.join(d, "broken.bitproto"), "w") as f:
         f.write(BROKEN)
+    for n, t in MANY.items():
+        with open(os.path.join(d, n + ".bitproto"), "w") as f:
+            f.write(t)
     os.makedirs(os.path.join(d, "alt"), exist_ok=True)
     for n, t in ALT.items():
         with open(os.path.join(d, n + ".bitproto"), "w") as f:
@@ -234,7 +251,7 @@ def run_matrix(unit):
         base = sc.sub("base")
         write_schemas(base)
         for ei in evs:
-            ev = EVENTS[ei]
+            ev = (EVENTS + MATRIX_EXTRA)[ei]
             if ev[0] != "compile":
                 continue
             ref_h = golden(base, ev, env_extra={"PYTHONHASHSEED": "0"})
@@ -242,8 +259,8 @@ def run_matrix(unit):
             k = 0
             for seed, cwdk, pathk, outk, quiet in itertools.product(seeds, ("schema", "root", "sibling"), ("rel", "abs", "dotdot"), ("rel", "abs"), (True, False)):
                 k += 1
-                if tier == "quick" and (k + ei) % 3 != 0:
-                    continue
+                if tier == "quick" and (k + ei) % 3 != 0 and not (ei >= len(EVENTS) and cwdk == "schema" and pathk == "rel" and outk == "rel" and quiet):
+                    continue  # (s9 runs under every hash seed also in quick)
                 work = sc.sub("m%d_%d" % (ei, k))
                 sd = os.path.join(work, "schemas")
                 os.makedirs(sd)
@@ -280,7 +297,7 @@ def run_matrix(unit):
                                       ev, seed, cwdk, pathk, outk, quiet, sorted(f for f in set(h) | set(ref_h) if h.get(f) != ref_h.get(f))),
                                   schema={k2 + ".bitproto": v for k2, v in SCHEMAS.items()}, replay=dict(kind="c18-matrix", ev=ei))
                 shutil.rmtree(work, ignore_errors=True)
-        out.sample(dict(kind="matrix", events=[list(map(str, EVENTS[e])) for e in evs]))
+        out.sample(dict(kind="matrix", events=[list(map(str, (EVENTS + MATRIX_EXTRA)[e])) for e in evs]))
     return out.result()
 
 
@@ -292,6 +309,7 @@ def units(tier):
     us = [("H", tier, k) for k in range(len(EVENTS))]
     comp = [k for k, e in enumerate(EVENTS) if e[0] == "compile"]
     us += [("M", tier, [k]) for k in comp]
+    us += [("M", tier, [len(EVENTS) + k]) for k in range(len(MATRIX_EXTRA))]
     return us
 
 
